@@ -21,6 +21,17 @@ def sim_digest():
     return digest(d)
 
 
+def library_digest(eq):
+    """what a planning run has no business changing in the equipment library: transceiver modes, SI, Span and ROADM defaults"""
+    d = {}
+    for t, trx in sorted(eq.get('Transceiver', {}).items()):
+        d[f'trx:{t}'] = dict(mode=trx.mode, frequency=getattr(trx, 'frequency', None))
+    for k in ('SI', 'Span', 'Roadm'):
+        for name, obj in sorted(eq.get(k, {}).items()):
+            d[f'{k}:{name}'] = {a: v for a, v in sorted(vars(obj).items()) if isinstance(v, (int, float, str, list, dict, bool, type(None)))}
+    return digest(d)
+
+
 def record_run(name, load_net, eq, services):
     """load_net() -> fresh undesigned network; services: service JSON dict"""
     import gnpy.tools.worker_utils as wu
@@ -55,8 +66,9 @@ def record_run(name, load_net, eq, services):
         return out
 
     def emit(ev):
+        omsd = digest([(o.oms_id, [e.uid for e in o.el_list], list(o.el_id_list)) for o in ctx['oms']]) if ctx['oms'] else 0
         events.append(dict(ev=ev, settings=digest(network_to_json(ctx['net'])) if ctx['net'] is not None else 0,
-                           sim=sim_digest(), occ=occ_total(), req=reqs(), nres=ctx['nres']))
+                           sim=sim_digest(), occ=occ_total(), req=reqs(), nres=ctx['nres'], omsd=omsd, lib=library_digest(eq)))
 
     net = load_net()
     ctx['net'] = net
